@@ -7,6 +7,7 @@ import (
 	"go/constant"
 	"go/types"
 	"math/big"
+	"regexp"
 	"sort"
 	"strings"
 )
@@ -331,7 +332,20 @@ func qualifier(p *types.Package) string {
 	return p.Path()
 }
 
-func typeKey(t types.Type) string { return types.TypeString(t, qualifier) }
+var byteRe = regexp.MustCompile(`\bbyte\b`)
+var runeRe = regexp.MustCompile(`\brune\b`)
+
+// typeKey is a canonical name of a type (byte and rune are aliases of uint8 and int32).
+func typeKey(t types.Type) string {
+	s := types.TypeString(t, qualifier)
+	if strings.Contains(s, "byte") {
+		s = byteRe.ReplaceAllString(s, "uint8")
+	}
+	if strings.Contains(s, "rune") {
+		s = runeRe.ReplaceAllString(s, "int32")
+	}
+	return s
+}
 
 func (s *Sorts) sortOf(t types.Type) string {
 	switch u := t.Underlying().(type) {
